@@ -4,7 +4,7 @@ import os
 from vlib import env
 from vlib.jsonutil import to_jsonable
 
-EVDIR = os.path.join(env.VERIF_ROOT, "evidence")
+EVDIR = os.environ.get("VERIF_EVIDENCE_DIR") or os.path.join(env.VERIF_ROOT, "evidence")
 
 
 def write(prop, tier, seed, coverage, wall_s, violations, assumptions, extra=None):
